@@ -415,14 +415,18 @@ ParserIsMeaning ==
         /\ acc.err = ~TextWellFormed(text)
         /\ ~acc.err => RefOf(acc) = TextRef(text)
 
-\* C10, conversions: a round trip through gob or text never changes an answer (when the text form
-\* is refused the builder is simply not replaced).
+\* C10, conversions: a round trip through gob or text never changes an answer.  Stated on the ghost:
+\* conversions keep the meaning the builder is supposed to have, and MatchIsMeaning holds before and
+\* after, hence MatchSet(b') = MatchSet(b).  (When the text form is refused the builder is not replaced.)
+\* (TLC evaluates primed expressions without caching, which makes recursive operators on b' very slow;
+\* this is why the action properties only mention ref.)
 ConversionsPreserve ==
-    [][act'.n \in {"GobRoundTrip", "TextRoundTrip"} => MatchSet(b') = MatchSet(b)]_vars
+    [][act'.n \in {"GobRoundTrip", "TextRoundTrip"} => ref' = ref]_vars
 
-\* Inserting never removes a match; clearing a kind never adds one.
+\* Inserting never removes a match; clearing a kind never adds one (same argument: RefSet is monotone in ref).
 InsertMonotone ==
-    [][(act'.n = "Insert" => MatchSet(b) \subseteq MatchSet(b')) /\ (act'.n = "Clear" => MatchSet(b') \subseteq MatchSet(b))]_vars
+    [][/\ act'.n = "Insert" => \A kk \in {"d", "s", "k", "r"} : ref[kk] \subseteq ref'[kk]
+       /\ act'.n = "Clear" => \A kk \in {"d", "s", "k", "r"} : ref'[kk] \subseteq ref[kk]]_vars
 
 \* A text round trip fails only for the builder without rules, or when a rule has no text form (the
 \* empty rule, reachable through Insert and gob only: "suffix:" alone is an invalid line).
